@@ -156,6 +156,8 @@ def ops(s, budget, letters="RCIM", phase_ops=True, gone=(), analysis_op=False):
                 add(c + 1, ["ac", p, L, fresh, "", "g1"])
             add(c + 1, ["ac", p, L, fresh, frail])
             add(c + 1, ["ac", p, L, names[0], ""])
+            if L == letters[0]:
+                add(c + 2, ["ac", p, L, names[0], frail])     # colliding NAME together with a fresh, valid rail
             add(c + 2, ["ac", p, L, fresh, fresh])
             add(c + 2, ["ac", p, L, fresh, names[-1]])
             if rails:
@@ -204,10 +206,12 @@ def ops(s, budget, letters="RCIM", phase_ops=True, gone=(), analysis_op=False):
         add(1, ["sp", [["p", 5.0], ["q", 2.0], ["r", 1.0]]])
         add(2, ["sp", [["p", 1.0]]])
         add(2, ["sp", [["N/A", 1.0], ["q", 2.0]]])
+        add(2, ["sp", [["p", 4.0], ["N/A", 1.0], ["q", 2.0]]])      # reserved name NOT in first position
         add(2, ["sp", []])
         for c, t in [(1, n) for n in names] + [(2, r) for r in rails] + [(2, "nope")]:
             add(c, ["cp", t, ["p"], "l"])
             add(c, ["cp", t, [["p", 0.05]], "d"])
+            add(c + 1, ["cp", t, [["p", 0.0], ["q", 0.02]], "d"])   # an explicit zero for one phase
             add(c + 1, ["cp", t, 123, "x"])
     return out
 
